@@ -298,7 +298,7 @@ EXTRA_TEXT5 = {
 for _k, _v in EXTRA_TEXT5.items():
     CLAIMS[_k]["text"] += _v
 EXTRA_TEXT7 = {
-    "C15": " Fifth session: item AzimuthBins regenerates the whole determine_azimuth_bins (np.histogram = the prelude's exact pyHistogram); C15_generated_bin_heights_sum: for every sample of azimuths in [0,180], every positive ideal width and multiplier, one height and one bar location per bin and the heights sum to the total of the length weights (to the number of lines when no lengths are given) -- the histogram part of the statement is now a theorem about regenerated code. The prelude's pyHistogram is run against np.histogram itself (driver command hist) by S15-bins on the real float edges, values on edges and outside the range included.",
+    "C15": " Fifth session: item AzimuthBins regenerates the whole determine_azimuth_bins (np.histogram = the prelude's exact pyHistogram); C15_generated_bin_heights_sum: for every sample of azimuths in [0,180], every positive ideal width and multiplier, one height and one bar location per bin and the heights sum to the total of the length weights (to the number of lines when no lengths are given) -- the histogram part of the statement is now a theorem about regenerated code. C15_bin_membership_is_floor_index / C15_spec_bin_index_is_histogram_bin: membership in a half-open bin of pyHistogram is the floor index of the hand-written Spec.binIndex. The prelude's pyHistogram is run against np.histogram itself (driver command hist) by S15-bins on the real float edges, values on edges and outside the range included.",
     "C17": " Round 7: S17 also samples a contour grid over a CALLER-OWNED precursor grid cold, warm and with a near-identical input in between (result, and the columns / labels of the caller's grid after the call, vs the run with caching disabled); item GridSampling is tied to C17 with the copy of the precursor grid as an explicit parameter: C17_grid_sampling_samples_a_copy (the cached body samples into the copy; the caller's grid is only read by the copy).",
     "C19": " Round 7: stream S19-rewrite (histories on ONE path in one process: write A with the package's writer, read, tracevalidate, write B to the same path, read, tracevalidate -- the reader and the command must see what the file holds NOW, judged against geopandas' own reader); item GeoReader regenerates read_geofile (and checks that it carries no decorator): C19_generated_reader (the reader returns what gpd.read_file gives for the path at the time of the call), C19_reader_sees_the_rewritten_file (written, read, rewritten, read over the model's file system).",
     "C20": " Round 7: every other source frame of S20-circles has shuffled integer labels (labels are not positions); item RandomSample regenerates random_network_sample and C20_generated_sample states what the sample's Network is built from (the whole source frame, the area of the drawn circle with the source CRS, truncation and circular area on; None exactly when the constructor raised).",
